@@ -147,7 +147,13 @@ def c04_predefined(ctx):
     cfg_data_blocks(ctx)
 
 
-RULES = [c04_1, c04_2, c04_3, c04_sizes, c04_predefined]
+def c04_reserved(ctx):
+    """The overlap comparison uses the reserved size: it must be the size the instruction's bytes will have (C01.4 size gate, C01.6)."""
+    from rules.c01 import c01_4, c01_6
+    c01_4(ctx)
+    c01_6(ctx)
+
+RULES = [c04_1, c04_2, c04_3, c04_sizes, c04_predefined, c04_reserved]
 
 _E = 'assembler/engine.py'
 MUTANTS = [
